@@ -68,6 +68,15 @@ def static_interpreters(ctx, rep, clause):
                         or (isinstance(n.test.ops[0], ast.NotIn) and not any(isinstance(s_, ast.Continue) for s_ in n.body))
                     if skipping:
                         skip = cs
+            # ... or a comprehension over the rule map that filters them out
+            if isinstance(n, ast.comprehension) and norm_stmt(n.iter) == f'{map_var}.items()' and \
+                    isinstance(n.target, ast.Tuple) and isinstance(n.target.elts[0], ast.Name):
+                for t in n.ifs:
+                    if isinstance(t, ast.Compare) and len(t.ops) == 1 and isinstance(t.ops[0], ast.NotIn) and \
+                            isinstance(t.left, ast.Name) and t.left.id == n.target.elts[0].id:
+                        cs = const_set(t.comparators[0])
+                        if cs is not None:
+                            skip = cs
             if isinstance(n, ast.Call) and isinstance(n.func, ast.Name) and n.func.id == 'parse_static_mods' and n.args:
                 source = Canon(f.node).text(n.args[0])
             if isinstance(n, ast.Call) and isinstance(n.func, ast.Attribute) and n.func.attr == 'count' and \
